@@ -78,9 +78,16 @@ func seedBattery(prop, repo string, extra map[string]any) {
 			continue
 		}
 		var m struct {
-			Property string `json:"property"`
+			Property   string              `json:"property"`
+			DetectedBy map[string][]string `json:"detected_by"`
 		}
-		if nil != json.Unmarshal(b, &m) || m.Property != prop {
+		if nil != json.Unmarshal(b, &m) {
+			continue
+		}
+		/* Seeds written against this property, and seeds written
+		against another which this property's rules were seen to
+		catch. */
+		if _, also := m.DetectedBy[prop]; m.Property != prop && !also {
 			continue
 		}
 		names = append(names, e.Name())
@@ -97,7 +104,8 @@ func seedBattery(prop, repo string, extra map[string]any) {
 			defer func() { <-sem }()
 			out[i] = res{Seed: n}
 			var meta struct {
-				Breaks string `json:"breaks"`
+				Breaks     string              `json:"breaks"`
+				DetectedBy map[string][]string `json:"detected_by"`
 			}
 			if b, err := os.ReadFile(filepath.Join(seedDir, n, "meta.json")); nil == err {
 				json.Unmarshal(b, &meta)
@@ -146,6 +154,16 @@ func seedBattery(prop, repo string, extra map[string]any) {
 				out[i].Outcome = "detected"
 			case 0:
 				out[i].Outcome = "MISSED"
+				var others []string
+				for k := range meta.DetectedBy {
+					if k != prop {
+						others = append(others, k)
+					}
+				}
+				sort.Strings(others)
+				if 0 != len(others) {
+					out[i].Outcome = "caught-by-" + strings.Join(others, "+")
+				}
 			default:
 				out[i].Outcome = "skipped"
 				out[i].Findings = []string{fmt.Sprintf("checker exit %d: %s", code, firstLine(string(o)))}
